@@ -239,11 +239,15 @@ Definition zset_zincrby (m : bytes) (delta : score) (z : zsetv) : option (score 
   | Some s => Some (s, snd (zset_zadd m s z))
   end.
 
-(* ZScan(cursor, match, count) -> items (None = panic) *)
-Definition zset_zscan (cursor : Z) (pat : bytes) (count0 : Z) (z : zsetv) : option (list item) :=
+(* ZScan(cursor, match, count) -> (next cursor, items) (None = panic): the rank window
+   [cursor, cursor + count]; next = its end, 0 once it covers the last rank *)
+Definition zset_zscan (cursor : Z) (pat : bytes) (count0 : Z) (z : zsetv) : option (Z * list item) :=
   let count := if count0 =? 0 then zset_zcard z else count0 in
   let pat' := match pat with [] => [x2a] | _ => pat end in
-  match zset_by_rank cursor (cursor + count) false z with
+  match zset_by_rank cursor (wrap64 (cursor + count)) false z with
   | None => None
-  | Some its => Some (filter (fun it => glob_match pat' (snd it)) its)
+  | Some its =>
+      let nx := wrap64 (cursor + count) in
+      Some ((if (nx >=? zset_zcard z) || (nx <=? cursor) then 0 else nx),
+            filter (fun it => glob_match pat' (snd it)) its)
   end.
